@@ -61,7 +61,7 @@ prop("C06", [RT.rule_AU1, RO.rule_OR2_watcher, RT.rule_SB, WT.rule_WT3],
      "has_subscription_expired is the Ok payload of authenticate_user; the signed message is the request-specific one and its template equals what the client signs; "
      "authenticate_user returns Ok only for a recovered key that is a registered user; appointments of different users under one locator are handled independently per block (OR2w: every (locator, uuid) pair is visited, a failure of one never ends the loop); the expiry the check reads moves only with an accepted, persisted renewal (SB all-or-nothing); the bytes a signature is checked against determine every field of the request (WT3: each field once, integers whole) — otherwise a signature over one appointment authenticates another. NOT decided: cryptographic claims, isolation over multi-user histories.",
      technique="branch-fact dataflow + origin tracing (identity provenance) + literal cross-check")
-prop("C07", [RT.rule_SL, LK.rule_AT2, RO.rule_EF2, RO.rule_EF3, SQ.rule_SQ3, SQ.rule_SQ5_tower, LK.rule_CBS, SQ.rule_SQ4, RT.rule_SB, SQ.rule_SQ7, SQ.rule_SQ8],
+prop("C07", [RT.rule_SL, LK.rule_AT2, RO.rule_EF2, RO.rule_EF3, SQ.rule_SQ3, SQ.rule_SQ5_tower, LK.rule_CBS, SQ.rule_SQ4, RT.rule_SB, SQ.rule_SQ7, SQ.rule_SQ8, RO.rule_OR2_watcher],
      STATIC + "Decided: the only subtraction of slots is guarded by `required - used <= available` and equals available - (slots(new) - slots(stored for this uuid)); renewal uses checked_add; "
      "refund adds slots(stored blob) and is persisted in the deletion's transaction; one critical section per balance update; only completion refunds; one divisor (2048) at all charge/refund sites; "
      "the balance reported is the one computed and persisted; a charge is always followed by the store (no refusal after the balance moved) (CBS); the reads the charge and the refund are computed from range over every stored appointment of the uuid, triggered or not (SQ4 query-scope table); a refused registration writes nothing to the live record, so no slots are minted by a request that was turned down (SB all-or-nothing). NOT decided: the conservation law over histories, the float slot formula per blob length.",
